@@ -2,7 +2,9 @@
 Spec: Adobe TN5176 (CFF DICT operands) / TN5177 (Type 2 charstring numbers) / Type 1 spec."""
 from pyvc.core import Contract, contract, prop, internal
 from pyvc.models import std, SymBytes, fixed_tools
-from pyvc.spec import And, Or, Not, Implies, Ite, eq, div
+from fractions import Fraction
+
+from pyvc.spec import And, Or, Not, Implies, Ite, eq, div, floor
 
 
 def _rebind():
@@ -107,27 +109,24 @@ class EncodeIntT2(_EncodeInt):
 
 @contract
 class EncodeFixed(Contract):
-    """encodeFixed(k / 65536) decodes (real reader table) to k / 65536 for every 16.16 value k."""
+    """For EVERY real f in the 16.16 range: encodeFixed(f) decodes (real reader table) to the
+    nearest 16.16 value, round-half-up as OpenType prescribes: floor(f * 65536 + 1/2) / 65536."""
     module = "fontTools.misc.psCharStrings"
     qualname = "encodeFixed"
     props = ("C15", "C12")
     rebind = staticmethod(_rebind)
-    assumptions = ("A-REAL: k/65536 and x*65536 are exact in binary64 for |k| < 2**53, so the obligation proved over reals transfers to floats",)
+    assumptions = ("A-REAL: the argument is a real number; x*65536 is exact in binary64 for |x| < 2**37",)
 
     def args(self, S, variant):
-        k = S.int("k")
-        return dict(k=k, f=k / 65536 if S.concrete else div(k, 65536))
+        return dict(f=S.real("f"))
 
     def requires(self, a):
-        return And(-(2 ** 31) <= a.k, a.k <= 2 ** 31 - 1)
-
-    def call(self, f, a):
-        return f(a.f)
+        return And(-32768 <= a.f, a.f * 65536 + Fraction(1, 2) < 2 ** 31)
 
     ensures = [
-        prop("real-reader-table-returns-value", lambda a, old, r: (
-            lambda d: And(eq(d[0] * 65536, a.k), eq(d[1], len(_items(r)))))(real_table_decode(EncodeFixed._m(), "t2", r))),
-        prop("integer-form-iff-fraction-zero", lambda a, old, r: eq(_items(r)[0] != 255 if not hasattr(_items(r)[0], "t") else Not(eq(_items(r)[0], 255)), eq(a.k % 65536, 0))),
+        prop("real-reader-table-returns-nearest-16.16", lambda a, old, r: (
+            lambda d: And(eq(d[0] * 65536, floor(a.f * 65536 + Fraction(1, 2))), eq(d[1], len(_items(r)))))(
+                real_table_decode(EncodeFixed._m(), "t2", r))),
     ]
 
     @staticmethod
